@@ -64,10 +64,17 @@ def diskFill (v : Var) : Option Rat :=
     | none => v.ufill
 
 /-- the value written into masked cells:
-`getattr(nvar, '_FillValue', getattr(nvar, 'fill_value', getattr(pvar, 'missing_value', -9999)))`; the disk
+`getattr(nvar, '_FillValue', getattr(nvar, 'fill_value', getattr(pvar, 'missing_value', None)))`; the disk
 variable has `_FillValue` exactly when `diskFill` is some, and without it there is no `fill_value` or
-`missing_value` either -/
+`missing_value` either: the masked array is then handed to netCDF4, which writes the default fill value of the type
+(the code wrote -9999 there before the repair: `writeFill9999`, `Props.C07.default_fill_counterexample`) -/
 def writeFill (v : Var) : Rat :=
+  match diskFill v with
+  | some d => d
+  | none => (defaultFill v.dt).getD 0
+
+/-- what the code wrote for a masked cell of a variable without any fill before the repair -/
+def writeFill9999 (v : Var) : Rat :=
   match diskFill v with
   | some d => d
   | none => -9999
